@@ -1,6 +1,7 @@
 import Driver.Codec
 import BioscrapeModel.Model.EntryPoint
 import BioscrapeModel.Model.ModelState
+import BioscrapeModel.Model.Priors
 
 /-
 `modeldriver`: one JSON job per input line, one JSON answer per output line
@@ -263,6 +264,31 @@ def jobModelOps (j : Json) : Except String Json := do
       outs := outs.push (Json.mkObj [("result", "error"), ("msg", e), ("state", dumpMState m)])
   return Json.mkObj [("outs", Json.arr outs)]
 
+def decPriorSpec (j : Json) : Except String (PriorSpec α) := do
+  let ty ← getStrField j "type"
+  let a ← getNumList (α := α) j "args"
+  let g (i : Nat) : α := a.getD i 0
+  match ty with
+  | "uniform" => return .uniform (g 0) (g 1)
+  | "gaussian" => return .gaussian (g 0) (g 1)
+  | "exponential" => return .exponential (g 0)
+  | "gamma" => return .gamma (g 0) (g 1) (g 2)
+  | "beta" => return .beta (g 0) (g 1) (g 2)
+  | "log-uniform" => return .logUniform (g 0) (g 1)
+  | "log-gaussian" => return .logGaussian (g 0) (g 1)
+  | t => throw s!"bad prior type {t}"
+
+/-- `check_prior` on a vector of (prior, positive flag, value). -/
+def jobPrior (j : Json) : Except String Json := do
+  let pi : α ← getNum j "pi"
+  let items ← (← getArr j "items").toList.mapM (fun it => do
+    let spec ← decPriorSpec (α := α) it
+    let x : α ← getNum it "x"
+    return (spec, getBoolD it "positive" false, x))
+  match checkPrior pi items with
+  | some lp => return Json.mkObj [("lp", Codec.enc lp)]
+  | none => return Json.mkObj [("lp", Json.null)]
+
 def dispatch (op : String) (j : Json) : Except String Json :=
   match op with
   | "prop" => jobProp (α := α) j
@@ -273,6 +299,7 @@ def dispatch (op : String) (j : Json) : Except String Json :=
   | "rv" => jobRv (α := α) j
   | "rule" => jobRule (α := α) j
   | "modelops" => jobModelOps (α := α) j
+  | "prior" => jobPrior (α := α) j
   | _ => throw s!"unknown op {op}"
 end
 
